@@ -1,5 +1,6 @@
 import HidVerif.Sphinx.VM
 import HidVerif.Hid.Machine
+import HidVerif.Gen.Stdlib
 open HidVerif HidVerif.Sphinx
 
 def bytesToLines (b : ByteArray) : List (List Char) := Id.run do
@@ -26,12 +27,32 @@ structure Case where
   asm : List (List Char) := []
   ast : List (List Char) := []
 
+/-- double derivation of the runtime library: the instruction list the translator wrote into
+`Gen.stdlibCode` must be what the Lean assembler makes of the text `hidc` actually emitted -/
+def asmCheck (l : Asm.Loaded) : String :=
+  match l.label? "all_is_win" with
+  | none => "mismatch:no-all_is_win-label"
+  | some B =>
+    let want := Gen.stdlibCode l.prog.w B
+    let regsOk := Gen.registers.zipIdx.all (fun (r, k) => l.label? r == some (k * l.prog.w))
+      && l.label? "stack_start" == some (Gen.stackStart l.prog.w)
+    let labelsOk := Gen.stdlibLabels.all (fun (n, r, o) =>
+      l.label? n == ((Gen.stdlibRoutines.lookup r).map (fun ro => B + ro + o)))
+    if !regsOk then "mismatch:registers"
+    else if !labelsOk then "mismatch:labels"
+    else if B + want.length != l.prog.code.size then "mismatch:length"
+    else
+      match (List.range want.length).find? (fun i => l.prog.code[B + i]? != want[i]?) with
+      | some i => s!"mismatch:instr{i}"
+      | none => "ok"
+
 def runCase (c : Case) : String :=
   let vmPart :=
     if c.asm.isEmpty then "" else
     match Asm.load c.asm c.args with
     | .error e => s!"{c.id}\tvm\tasmerror:{e.replace "\t" " "}\t0\t0\t0\t"
     | .ok l =>
+      if c.opts.contains "asmcheck" then s!"{c.id}\tvm\t{asmCheck l}\t0\t0\t0\t" else
       let r := VM.runLoaded l { fuel := c.fuel }
       s!"{c.id}\tvm\t{VM.renderOutcome r.outcome}\t{r.steps}\t{r.backtracks}\t{r.pending}\t{VM.renderTrace r.events}"
   let optNat (key : String) (dflt : Nat) : Nat :=
